@@ -652,15 +652,34 @@ pub fn run(ctx: &Ctx) -> Report {
             }
         }
         cmds.push(Cmd::ping());
+        // any request sequence id: a conformant reply continues the id of its own request
+        let ids_varied = rng.bool();
+        if ids_varied {
+            for c in cmds.iter_mut() {
+                c.seq = *rng.pick(&[0u8, 1, 2, 7, 100, 250, 254, 255]);
+            }
+        }
         let mut case = Case::new(cmds, scripts);
         case.arrival = Arrival::Pipelined(1);
         let obs = run_case(&case);
         rep.evaluations += 1;
-        let d = || J::obj().set("commands", shape.clone()).set("arrival", "lock-step").set("outcome", obs.outcome.describe());
+        let d = || J::obj().set("commands", shape.clone()).set("request_ids", if ids_varied { "varied" } else { "0" }).set("arrival", "lock-step").set("outcome", obs.outcome.describe());
         if i == 0 {
             rep.sample(d());
         }
+        let before = rep.violations.len();
         judge(&obs, "built-in commands in lock-step", rep, &d);
+        if rep.violations.len() == before && obs.outcome == Outcome::Ok {
+            if let Ok((pkts, msgs, dec)) = decode_output(&obs) {
+                if dec.stop.is_none() {
+                    if let Some(v) = seq_violations(&obs, &pkts, &msgs, &dec).into_iter().next() {
+                        rep.violations.push(viol("C20", "C20 nonconformant-reply sequence-id".into(), format!("a command the library answers itself, sent with its own sequence id, got a reply that does not continue it: {} ({})", v, shape), d()));
+                        return;
+                    }
+                    rep.counters.inc("built_in_replies_id_checked");
+                }
+            }
+        }
         if let Some(r) = &obs.world.deadlock {
             rep.violations.push(viol("C20", "C20 request-never-answered".into(), format!("the server waits for input at offset {} although a complete request has no (flushed) reply: {} bytes written and not flushed ({})", r.pos, r.pending, shape), d()));
         } else if obs.outcome == Outcome::Ok {
